@@ -280,7 +280,12 @@ pub fn check(_ctx: &Ctx, input: &Input) -> CaseResult {
     let mut moved = false;
     // the maps must not depend on configuration switches either: the third
     // pass names anonymous items synthetically
-    for (do_gc, synthetic) in [(false, false), (true, false), (false, true)] {
+    // the fourth pass replaces the first imported function by a local body
+    // before emitting (its id stays, its index moves behind the imports)
+    for (do_gc, synthetic, replace) in [(false, false, false), (true, false, false), (false, true, false), (false, false, true)] {
+        if replace && da.imp_funcs.is_empty() {
+            continue;
+        }
         let mut cfg = wal::Cfg { synthetic_names: synthetic, ..wal::Cfg::plain() }.to_config();
         let shared = spy::install(&mut cfg, hint.clone());
         let mut m = match wal::parse(&p.bytes, &cfg) {
@@ -306,6 +311,18 @@ pub fn check(_ctx: &Ctx, input: &Input) -> CaseResult {
         if do_gc && wal::gc(&mut m).is_err() {
             out.label("skip:gc-panic(C02)");
             continue;
+        }
+        if replace {
+            let fid = ids.funcs[0];
+            let r = guard("replace_imported_func", || {
+                m.replace_imported_func(fid, |(b, _)| {
+                    b.unreachable();
+                })
+                .is_ok()
+            });
+            if !matches!(r, Ok(true)) {
+                continue; // C18's business
+            }
         }
         spy::ask_about_live(&shared, &m);
         let b = match wal::emit(&mut m) {
@@ -378,6 +395,19 @@ pub fn check(_ctx: &Ctx, input: &Input) -> CaseResult {
                 if judged > 0 {
                     out.label("function-tags-judged");
                 }
+                if replace {
+                    // the replaced function: a local, untagged body at the index the map reports
+                    if let Some((_, got)) = ans.funcs.iter().find(|(id, _)| *id == ids.funcs[0]) {
+                        let ok = db.body(*got).map(|b| b.ops.first().map(|o| o.name) == Some("Unreachable")).unwrap_or(false);
+                        if !ok {
+                            return Err(Failure::new(
+                                "emit-map:function",
+                                format!("[import-replaced] the emit-time map says the replaced import is at index {}, which is not the replacement body in the emitted binary [{}]", got, p.origin),
+                            ));
+                        }
+                    }
+                    out.label("mode:import-replaced");
+                }
             }
         }
         // likewise data segments with pairwise distinct, non-empty payloads
@@ -404,6 +434,10 @@ pub fn check(_ctx: &Ctx, input: &Input) -> CaseResult {
                 }
                 out.label("data-payloads-judged");
             }
+        }
+        if replace {
+            // the structure changed on purpose: only the witnesses above apply
+            continue;
         }
         let mut iso = Iso::new(&da, &db);
         iso.tolerate = vec!["memarg-offset-truncated-to-u32".into()];
